@@ -781,11 +781,21 @@ class C14(Check):
 def mutate(rng, text):
     """byte/token-level mutation of a file"""
     kind = rng.choice(["ragged", "extra", "missing", "nonnum", "huge", "blank", "cr", "comment", "byte", "neg", "empty", "dupe", "float", "trunc",
-                       "movetok", "movetok"])
+                       "movetok", "movetok", "glue", "glue"])
     lines = text.split("\n")
     i = rng.randrange(len(lines)) if lines else 0
     toks = lines[i].split() if lines else []
-    if kind == "ragged" and toks:
+    if kind == "glue":
+        # a fixed-width table whose negative (or signed) column ran into its neighbour: two or three numbers in one field,
+        # the number of fields unchanged; mostly on the last data line
+        idx = [n for n, l in enumerate(lines) if len(l.split()) >= 2 and not l.lstrip().startswith("#")]
+        if idx:
+            j = idx[-1] if rng.random() < 0.7 else rng.choice(idx)
+            tk = lines[j].split()
+            p = rng.randrange(1, len(tk))
+            tk[p] = tk[p] + "".join(rng.choice(["-0.0625", "+0.25", "-1", "-3e-2"]) for _ in range(rng.randint(1, 3)))
+            lines[j] = " ".join(tk)
+    elif kind == "ragged" and toks:
         lines[i] = " ".join(toks[:rng.randint(0, len(toks))])
     elif kind == "extra":
         lines[i] = lines[i] + " " + " ".join(str(rng.randint(0, 3)) for _ in range(rng.randint(1, 4)))
